@@ -40,6 +40,9 @@ fn main() {
         std::process::exit(2);
     }
     api::install_panic_hook();
+    if args.iter().any(|a| a == "--thorough") {
+        plan::THOROUGH.store(true, std::sync::atomic::Ordering::Relaxed);
+    }
     match args[1].as_str() {
         "worker" => {
             let cfg = WorkerCfg {
